@@ -64,14 +64,14 @@ def _concrete(code, shape, errs, marker, mark, k):
     return boundary.make_response(code, 'text/html', '<html>tag=%d%s</html>' % (k, mark))
 
 
-def observe(script):
+def observe(script, timeout=None):
     """Run the real RpcNode.request against the scripted node; return boundary events + outcome."""
     from pytezos.rpc.node import RpcNode, RpcError
     tags = {id(r): k + 1 for k, r in enumerate(script)}
     boundary.reset(list(script))
     node = RpcNode('http://node.invalid:8732')
     try:
-        res = node.request('GET', 'chains/main/blocks/head/header')
+        res = node.request('GET', 'chains/main/blocks/head/header') if timeout is None else node.request('GET', 'chains/main/blocks/head/header', timeout=timeout)
         out = ('return', tags.get(id(res)))
     except boundary.ScriptExhausted:
         out = ('exhausted',)
@@ -128,6 +128,25 @@ def replay_case(ctx, responses, slept, outcome):
     return not problems
 
 
+def slow_clock_cases(ctx):
+    """The retry schedule counts attempts, not seconds: with a short per-request timeout given by the caller and wall-clock time really passing between the
+    attempts (30 ms per sleep here, timeout 50 ms), k transient failures followed by a success still end in that success, for every k below the attempt limit."""
+    transient = (503, 'list', ((False, True),), False)
+    boundary.REAL_SLEEP[0] = 0.03
+    try:
+        for k in range(1, 6):
+            responses = [transient] * k + [(200, 'object', (), False)]
+            script = [concrete(r, j + 1) for j, r in enumerate(responses)]
+            sends, sleeps, out, order = observe(script, timeout=0.05)
+            ctx.count(('slow-clock', k), nontrivial=True)
+            ctx.replayed += 1
+            if out != ('return', k + 1) or sends != list(range(1, k + 2)):
+                ctx.mismatch('C26:wall-clock:outcome', '%d transient failure(s) then a success, timeout=0.05 s, 30 ms really passing per sleep: requests sent %s, outcome %s; the schedule says %d requests and the success' % (
+                    k, sends, out, k + 1), {'slow_clock': k})
+    finally:
+        boundary.REAL_SLEEP[0] = 0.0
+
+
 def features(rng):
     """A random response, *not* drawn from the spec's alphabet."""
     code = rng.choice([200, 200, 500, 500, 500, 502, 503, 504, 400, 401, 404, 409, 500])
@@ -166,6 +185,7 @@ def run(ctx):
         if len(resp) in (1, 3, 6) and ok:
             ctx.sample({'responses': resp, 'slept_ms': slept, 'outcome': outcome}, limit=4)
     ctx.exhaustive = True
+    slow_clock_cases(ctx)
     # ---- Leg C ----
     rng = random.Random(ctx.seed * 7919 + 26)
     ntr = 400 if ctx.quick else 20000
@@ -225,6 +245,9 @@ def replay(ctx, rep):
         ok = replay_case(ctx, resp, tuple(c['slept']), tuple(c['outcome']))
     elif 'trace' in c:
         validate_traces(ctx, [c['trace']], 'C26:trace')
+        ok = not ctx.mismatches
+    elif 'slow_clock' in c:
+        slow_clock_cases(ctx)
         ok = not ctx.mismatches
     else:
         ok = True
